@@ -8,13 +8,22 @@ Correspondence streams (implementation vs the model executed in 192-bit arithmet
             gravity 0 / 9.81007, structured dt / gyro / acc (ladders, Taylor band of Exp, rotations beyond pi);
   chunks  : one module object fed a stream split into consecutive chunks (all compositions of F for small F,
             random chunkings above), reset=False/True, rank-1/2/3 inputs, explicit init_state, per-call covariances;
-  shape   : `_check` rank lifting and the rank assert against the model's `checkShape` / `rankOk`.
+  shape   : `_check` rank lifting and the rank assert against the model's `checkShape` / `rankOk`;
+  corpus  : a deterministic corner corpus (same for every seed) evaluated first: small F, all chunk shapes, extreme
+            magnitudes, mixed-regime batches, strided / expanded / aliased arguments, every init_state kind;
+  integrate: the dict returned by `integrate()` block by block (Dr, Dv, Dp, Dt, a) against the model's `integrate`;
+  reuse   : ONE object serves several calls with every per-call argument varied (B, F, rank, rotation, covariances,
+            init_state), the caller re-using one set of buffers in place; each call = the call on a fresh object.
 Oracles on the real code (the property's own clauses)
   recursion : rot/vel/pos against the documented sequential recursion evaluated in 192 bits (`imu.hist` mode 1);
   chunk     : chunked outputs == one-call outputs (rot, vel, pos; and the carried covariance);
   rank      : (H) == (1,1,H), (F,H) == (1,F,H) bit for bit;
   psd       : returned covariance symmetric and positive semidefinite;
-  purity    : inputs and previously returned outputs are not modified by later calls.
+  purity    : inputs (whole storage around views) and previously returned outputs are not modified by later calls;
+  alias     : the caller overwriting its inputs / the returned tensors in place does not change later calls;
+  items     : every item of a (mixed-regime) batch = the call on that item alone;
+  attrs     : module parameters untouched; buffers untouched (reset=True) or = last returned frame (reset=False);
+  reuse, types, nonfinite, raises: see the streams above.
 """
 from __future__ import annotations
 
